@@ -466,7 +466,16 @@ class NestedFrame(pd.DataFrame):
             raise ValueError("No columns were assigned as list columns.")
 
         # Pack list columns into a nested column
-        if len(df) == 0:
+        typed_lists = all(
+            isinstance(df[col].dtype, pd.ArrowDtype) and pa.types.is_list(df[col].dtype.pyarrow_dtype)
+            for col in list_columns
+        )
+        if len(df) == 0 and typed_lists:
+            # the columns know their list types: pack them as for a non-empty frame, so that the
+            # nested dtype does not depend on whether there are rows
+            packed_df = pack_lists(df[list_columns])
+            packed_df.name = name
+        elif len(df) == 0:
             # if the dataframe is empty, just return an empty nested column
             # since there are no iterable values to pack
             packed_df = NestedFrame().add_nested(df[list_columns], name=name)
